@@ -723,5 +723,12 @@ PROPS["C10"]["explanation"] += " (RETYPEFIRST) SDIgetcoordvar refuses a wider ty
 PROPS["C07"]["rules"] = PROPS["C07"]["rules"] + [rules_loops.rule_read_list_required]
 PROPS["C07"]["explanation"] += " (READLIST) VSread tests that fields have been selected for reading before the loops that run over the read list."
 
+PROPS["C12"]["rules"] = PROPS["C12"]["rules"] + [rules_dd.rule_free_hint_only_lowered]
+PROPS["C12"]["explanation"] += " (LOWWATER) bv_set only lowers the free-bit hint of a tag's reference bit vector. (SPECIALMATCH now also covers the tag matches of HTIcount_dd.)"
+PROPS["C11"]["rules"] = PROPS["C11"]["rules"] + [rules_ann.rule_append_at_walked_tail]
+PROPS["C11"]["explanation"] += " (APPENDTAIL) a new DFAN directory block is linked behind the block the walk to the tail stopped at."
+PROPS["C14"]["rules"] = PROPS["C14"]["rules"] + [rules_ref.rule_preread_then_seek]
+PROPS["C14"]["explanation"] += " (PREREADSEEK) a bit file opened for writing over existing data is moved back to its block with an absolute seek after the pre-read, so that reading through a write-mode handle rewrites identical bytes in place."
+
 NOT_APPLICABLE = {}
 
